@@ -39,7 +39,7 @@ Print Assumptions C08_mp4_delete_idempotent.
 (* regression witness of the defect fixed in /repo: two free atoms before ilst (each delete used to consume one more) *)
 Definition c08_two_free : list Z :=
   mp4_build (mkLayout true 2 false (-1) [MHdlr; MFree 10; MFree 20; MIlst] mp4_empty_ilst
-               [mkTrak false true [0; 5]] [] (mp4_pattern 16 1) 0 0 false).
+               [mkTrak false true [0; 5]] [] (mp4_pattern 16 1) 0 0 false []).
 Example C08_mp4_delete_idempotent_ex :
   mp4_wf c08_two_free = true /\
   match mp4_delete c08_two_free with
